@@ -96,6 +96,8 @@ pub(crate) fn syscommand_runner(
         #[cfg(ukoehb_bevy_cobweb_verif)]
         crate::verif::trace(crate::verif::RunnerEv::Abort(*command));
         cleanup_on_abort(world, setup, cleanup);
+        #[cfg(ukoehb_bevy_cobweb_verif)]
+        crate::verif::trace(crate::verif::RunnerEv::Exit(*command));
         return
     };
     let Some(mut system_command) = entity_mut.get_mut::<SystemCommandStorage>()
@@ -105,6 +107,8 @@ pub(crate) fn syscommand_runner(
         #[cfg(ukoehb_bevy_cobweb_verif)]
         crate::verif::trace(crate::verif::RunnerEv::Abort(*command));
         cleanup_on_abort(world, setup, cleanup);
+        #[cfg(ukoehb_bevy_cobweb_verif)]
+        crate::verif::trace(crate::verif::RunnerEv::Exit(*command));
         return
     };
     let Some(mut callback) = system_command.take()
@@ -125,6 +129,8 @@ pub(crate) fn syscommand_runner(
             );
         }
 
+        #[cfg(ukoehb_bevy_cobweb_verif)]
+        crate::verif::trace(crate::verif::RunnerEv::Exit(*command));
         return
     };
 
@@ -202,6 +208,8 @@ pub(crate) fn syscommand_runner(
         // Reset the counter since we are exiting the system command tree.
         **world.resource_mut::<SyscommandCounter>() = 0;
     }
+    #[cfg(ukoehb_bevy_cobweb_verif)]
+    crate::verif::trace(crate::verif::RunnerEv::Exit(*command));
 }
 
 //-------------------------------------------------------------------------------------------------------------------
